@@ -10,8 +10,8 @@ import (
 	"time"
 
 	"github.com/dadrus/heimdall/verif/engine"
-	"github.com/dadrus/heimdall/verif/props/fsstart"
 	"github.com/dadrus/heimdall/verif/env"
+	"github.com/dadrus/heimdall/verif/props/fsstart"
 )
 
 // Action is one step of a history (world change, fetch outcome or environment action).
@@ -76,7 +76,11 @@ func Check() *engine.Check {
 			"hashes, repository dump (known rules and tree) and the oracle's own memory. A step that violates the oracle ends its history (its " +
 			"successors are not explored). evaluations = transitions = histories executed on the real code. A transition is non-trivial when the " +
 			"provider looked at a source and either called the processor or had to decide about a loaded rule set; distinct = distinct " +
-			"(system, history of the state, action).",
+			"(system, history of the state, action). Fetch outcomes include a connection lost inside the body (http_endpoint) and requests the " +
+			"storage refuses (cloud_blob: permission denied, throttled). Two further parts: (start) the file_system provider started by its real " +
+			"Start() with a real watcher, one callback of the initial load held while the directory is changed (2 callbacks x 8 changes), a barrier " +
+			"file instead of sleeping; (cacheable) every sequence of up to 4 (thorough: 6) polls / content changes / clock advances over two " +
+			"http_endpoint endpoints that differ in the query only, responses cacheable for 60 s, one shared cache, against a private-cache model.",
 		Assumptions: []string{
 			"inotify/fsnotify event model: write to a new file = Create(+Write if bytes), overwrite = Write (truncation, if it had bytes) + Write (if bytes), remove = Remove, rename f->g = Rename(f)+Create(g), chmod = Chmod; at most 4 notifications pending; events of one file are delivered in order (inotify queue order), events of different files may be swapped, any event may be delivered twice (C18_SAME_SOURCE_REORDER=1 also swaps events of one file)",
 			"provider callbacks are called directly (ruleSetsChanged / watchChanges / informer handler funcs); fsnotify, gocron and the client-go informer machinery are not executed; the kubernetes handler wiring (FilteringResourceEventHandler over filter/add/update/delete) is replicated from newController; a deletion noticed by a re-list is delivered as cache.DeletedFinalStateUnknown as client-go documents",
@@ -169,6 +173,9 @@ func run(c *engine.Ctx) {
 
 	// the file_system provider while it starts (real Start, real watcher, one callback of the initial load held)
 	fsstart.RunAll(c)
+
+	// same-path endpoints of the http_endpoint provider with cacheable responses and one shared cache
+	runCacheable(c)
 
 	for _, pl := range plans(c, dir) {
 		if err := selfCheck(pl.sys); err != nil {
@@ -455,6 +462,20 @@ func systemByName(name, dir string) system {
 func replay(c *engine.Ctx, raw json.RawMessage) {
 	if fsstart.IsCase(raw) {
 		fsstart.Replay(c, raw)
+
+		return
+	}
+
+	var part struct {
+		Part string `json:"part"`
+	}
+
+	if json.Unmarshal(raw, &part) == nil && part.Part == "http-cacheable" {
+		if _, cleanup, ok := setup(c); ok {
+			defer cleanup()
+
+			replayCacheable(c, raw)
+		}
 
 		return
 	}
